@@ -352,6 +352,76 @@ class Pool:
                 p.kill()
 
 
+def sx_coq(text):
+    """wire text (hex ints, parentheses) -> Coq term of type sx"""
+    toks = text.replace("(", " ( ").replace(")", " ) ").split()
+    pos = [0]
+
+    def val():
+        t = toks[pos[0]]
+        pos[0] += 1
+        if t == "(":
+            items = []
+            while toks[pos[0]] != ")":
+                items.append(val())
+            pos[0] += 1
+            return "(SL [" + "; ".join(items) + "])"
+        n = int(t, 16)
+        return "(SZ (%d)%%Z)" % n
+
+    return val()
+
+
+def xcheck(prop, nmax=40, timeout=180):
+    """Extraction cross-check: re-evaluate a sample of this run's driver requests inside Coq with
+    vm_compute on the same Run.v entry points and compare with the extracted driver's replies."""
+    d = os.path.join(BUILD, prop.lower(), "xcheck")
+    rows, seen = [], set()
+    for f in sorted(glob.glob(os.path.join(d, "*.jsonl"))):
+        for line in open(f):
+            try:
+                r = json.loads(line)
+            except ValueError:
+                continue
+            k = (r["entry"], r["req"])
+            if k not in seen:
+                seen.add(k)
+                rows.append(r)
+    rows.sort(key=lambda r: len(r["req"]) + len(r["reply"]))
+    per_entry = {}
+    chosen = []
+    for r in rows:
+        if per_entry.get(r["entry"], 0) < max(4, nmax // max(1, len(set(x["entry"] for x in rows)))):
+            per_entry[r["entry"]] = per_entry.get(r["entry"], 0) + 1
+            chosen.append(r)
+        if len(chosen) >= nmax:
+            break
+    if not chosen:
+        return {"compared": 0, "note": "no driver requests sampled"}
+    body = ["From Coq Require Import ZArith List Bool.", "Import ListNotations.",
+            "From PV Require Import Base.Sx %s.Run." % prop,
+            "Definition results : list bool := ["]
+    body.append(";\n".join("  sx_eqb (run_%s %s) %s" % (r["entry"], sx_coq(r["req"]), sx_coq(r["reply"]))
+                           for r in chosen))
+    body.append("].")
+    body.append("Eval vm_compute in results.")
+    vf = os.path.join(BUILD, prop.lower(), "XCheck.v")
+    open(vf, "w").write("\n".join(body) + "\n")
+    rc, out, wall = sh("timeout %d coqc -R %s PV XCheck.v" % (timeout, COQ), cwd=os.path.dirname(vf), timeout=timeout + 20)
+    if rc == 124:
+        return {"compared": 0, "note": "vm_compute cross-check timed out after %ds (not a failure)" % timeout}
+    if rc != 0:
+        return {"compared": 0, "note": "cross-check file did not compile: " + out[-300:]}
+    flat = re.sub(r"\s+", " ", out)
+    m = re.search(r"= \[(.*?)\]\s*: list bool", flat)
+    if not m:
+        return {"compared": 0, "note": "could not parse coqc output: " + flat[-200:]}
+    vals = [v.strip() for v in m.group(1).split(";")]
+    mism = [chosen[i] for i, v in enumerate(vals) if v != "true" and i < len(chosen)]
+    return {"compared": len(vals), "agree": sum(1 for v in vals if v == "true"), "mismatches": mism,
+            "entries": sorted(per_entry), "wall_s": round(wall, 1)}
+
+
 def load_findings():
     p = os.path.join(VERIF, "known_findings.json")
     if not os.path.exists(p):
@@ -428,6 +498,7 @@ def run_property(prop, tier, seed, replay=None):
             n_corpus = len(corpus)
             cases = corpus + list(mod.cases(tier, seed))
         budget = getattr(mod, "BUDGET_S", {"quick": 150, "thorough": 1500})[tier]
+        shutil.rmtree(os.path.join(BUILD, prop.lower(), "xcheck"), ignore_errors=True)
         pool = Pool(modname, hashseeds, 1 if replay else NCPU)
         outcomes, skipped = pool.run(cases, deadline=time.time() + budget)
 
@@ -460,6 +531,12 @@ def run_property(prop, tier, seed, replay=None):
         violations.append((path, ""))
     if pool is not None:
         pool.close()
+    xc = xcheck(prop) if okb and not replay else {"compared": 0, "note": "not run"}
+    if xc.get("mismatches"):
+        path = write_replay(prop, "extraction", {
+            "property": prop, "kind": "extraction-disagrees-with-vm_compute", "mismatches": xc["mismatches"][:5],
+            "note": "the extracted OCaml model and Coq's vm_compute disagree on these requests"})
+        violations.append((path, ""))
 
     if proof["failures"]:
         path = write_replay(prop, "proof", {
@@ -496,7 +573,7 @@ def run_property(prop, tier, seed, replay=None):
                 "Coq 8.16.1 kernel (coqc; vm_compute where a theorem says so; no native_compute)",
                 "axioms per theorem (Print Assumptions): " + json.dumps(
                     {k: (v or "closed under the global context") for k, v in proof["axioms"].items()}),
-                "extraction: ExtrOcamlBasic only, no Extract Constant; OCaml 4.13.1; ocaml/driver_main.ml",
+                "extraction: ExtrOcamlBasic only, no Extract Constant; OCaml 4.13.1; ocaml/driver_main.ml; a sample of this run's driver requests is re-evaluated inside Coq (vm_compute) and must give the same replies (coverage.extraction_cross_check)",
                 "hand-written Gallina model tied to /repo by this run's correspondence cases",
             ],
             "theorems": proof["theorems"],
@@ -508,6 +585,7 @@ def run_property(prop, tier, seed, replay=None):
             "hashseeds": per_seed, "corpus_cases": n_corpus, "skipped_for_budget": skipped,
             "exhaustive": bool(getattr(mod, "EXHAUSTIVE", {}).get(tier, False)) and skipped == 0,
             "known_findings_hit": {k: len(v) for k, v in known_hit.items()},
+            "extraction_cross_check": {k: v for k, v in xc.items() if k != "mismatches"},
         },
         "assumptions": list(getattr(mod, "ASSUMPTIONS", [])),
         "wall_s": round(time.time() - t0, 2),
